@@ -60,7 +60,16 @@ class GuardViolation(Exception):
         self.node = node
 
 
-def classify_skip_guard(test: ast.AST) -> str:
+def _abs_names(fn_node: ast.AST) -> set:
+    out = set()
+    for n in ast.walk(fn_node):
+        if isinstance(n, ast.Assign) and len(n.targets) == 1 and isinstance(n.targets[0], ast.Name) and isinstance(n.value, ast.Call) \
+                and (dotted(n.value.func) or "").split(".")[-1] in ("abs", "fabs", "absolute", "norm"):
+            out.add(n.targets[0].id)
+    return out
+
+
+def classify_skip_guard(test: ast.AST, abs_names: Optional[set] = None) -> str:
     """'symmetric'  — not np.isclose(x, 0) / x != 0 / abs(x) > eps   (skips only the neutral value)
        'one-sided'  — x > eps / x >= eps / x < -eps ...               (also skips the other sign)
        'unknown'"""
@@ -73,7 +82,8 @@ def classify_skip_guard(test: ast.AST) -> str:
         return "symmetric"
     if isinstance(t, ast.Compare) and len(t.ops) == 1:
         l, o, r = t.left, t.ops[0], t.comparators[0]
-        has_abs = any(isinstance(x, ast.Call) and (dotted(x.func) or "").split(".")[-1] in ("abs", "fabs", "absolute") for x in (l, r))
+        has_abs = any((isinstance(x, ast.Call) and (dotted(x.func) or "").split(".")[-1] in ("abs", "fabs", "absolute", "norm"))
+                      or (isinstance(x, ast.Name) and x.id in (abs_names or ())) for x in (l, r))
         if isinstance(o, (ast.NotEq,)) and pol:
             return "symmetric"
         if isinstance(o, (ast.Eq,)) and not pol:
@@ -160,7 +170,7 @@ class InstructionListBuilder:
                 continue
             if isinstance(s, ast.If):
                 t = norm(s.test)
-                kind = classify_skip_guard(s.test)
+                kind = classify_skip_guard(s.test, _abs_names(self.fn.node))
                 if kind == "symmetric" and not s.orelse:
                     self.assumptions.append(f"{self.fn.name}: the branch `{t}` is taken (generic parameter value); skipping it is the identity at the excluded value")
                     self.run_block(s.body, list_name)
